@@ -251,10 +251,12 @@ PROPS = {
         "assumptions": [],
     },
     "C13": {
-        "obligations": [ST + n for n in ["feed_inv", "tracker_moments", "tracker_mean", "sum_sq_sub", "tracker_sm2", "collect_rhat_eq_classical",
+        "module": "MiniMcmcVerif.Props.C13Ess",
+        "obligations": [ST + n for n in ["collectRhatSq_eq_collectWV", "essFromChainStats_path_independent", "essFromChainStats_eq", "feed_inv", "tracker_moments", "tracker_mean", "sum_sq_sub", "tracker_sm2", "collect_rhat_eq_classical",
                                          "multi_rhat_eq_classical", "collect_rhat_eq_multi", "ema_mem", "p_accept_mem", "p_accept_ema"]],
-        "rel32": 2e-3, "abs32": 1e-6,
-        "level_text": "Theorems (any field of characteristic 0, induction over the update list, every history): the tracker's count, mean and mean of squares are those of exactly the fed states; "
+        "rel32": 6e-3, "abs32": 1e-6,
+        "level_text": "Theorems (any field of characteristic 0, induction over the update list, every history): the tracker's count, mean and mean of squares are those of exactly the fed states; ess_from_chainstats is M*N/tau of the "
+                      "unsplit draws with W and var+ taken from the trackers, whichever autocovariance path runs; "
                       "for n>=2 sm2 is the unbiased variance; collect_rhat from m>=1 trackers of equal count equals the classical var+/W and equals MultiChainTracker::rhat, for any number of parameters; "
                       "the acceptance estimate is the closed-form EMA of the indicators and stays in [0,1]. Tied to stats.rs by feeding identical update sequences to the real trackers and to the "
                       "same polymorphic model at Float32/Float; ill-conditioned inputs (f32 mirror and f64 reference disagree) are counted indeterminate.",
